@@ -21,14 +21,19 @@ Model of the decision core of
 
 Node values are abstract (`α`); a masked element is `none`.
 
-Two places are modelled *as they will be after the proposed patches*
-(`fixes/C14-*.patch`); the code as it stands is kept as `…Old`:
+Two places were found wrong when this model was first written and have since
+been repaired in /repo (commits 6288525, fe4e445, 99956cc): the model mirrors the
+code as it is now, the code as it was is kept as `…Old` with `decide` witnesses:
 
-* `partIndex true` is the loop with `i = k + 1`, `partIndex false` the loop as
-  coded (`i += k + 1`);
+* `partIndex true` is the loop with `i = k + 1` (the code), `partIndex false` the
+  loop as it was coded before 6288525 (`i += k + 1`);
 * `wPartNodeCount` drops every zero count and is written whenever there is an
-  interior ring, `wPartNodeCountOld` uses `np.trim_zeros` and is skipped
-  whenever no cell has more than one part.
+  interior ring (the code), `wPartNodeCountOld` is the code before fe4e445 /
+  99956cc: `np.trim_zeros`, skipped whenever no cell has more than one part.
+
+Several containers / fields in one dataset, the storage type of the count
+variables and the operations that keep the part and node dimensions are in
+`Model/GeometryWrite.lean`, `Model/GeometryWidth.lean`, `Model/GeometryOps.lean`.
 
 Core Lean only.
 -/
@@ -128,8 +133,8 @@ structure St where
   i : Nat
 
 /-- One pass of the outer loop `for cell_no in range(n_cells)`.  With
-`fixed = false` the offset is advanced as coded, `i += k + 1`; with
-`fixed = true` as proposed, `i = k + 1`. -/
+`fixed = true` the offset is advanced as coded, `i = k + 1`; with
+`fixed = false` as it was before commit 6288525, `i += k + 1`. -/
 def step (fixed : Bool) (parts : List Nat) (st : St) (need : Nat) : St :=
   match inner need st.inst st.i 0 (parts.drop st.i) st.index with
   | (index, some k) => ⟨index, st.inst + 1, if fixed then k + 1 else st.i + (k + 1)⟩
@@ -223,12 +228,13 @@ def wNodeCount {α} (b : List (List (List (Option α)))) : List Nat := b.map (fu
 def trimZeros (l : List Nat) : List Nat :=
   ((l.dropWhile (· == 0)).reverse.dropWhile (· == 0)).reverse
 
-/-- `_write_part_node_count` as coded: nothing when the part dimension has size
-1, else `np.trim_zeros(np.ma.count(array, axis=2).flatten())`. -/
+/-- `_write_part_node_count` as it was before commits fe4e445 / 99956cc: nothing
+when the part dimension has size 1, else
+`np.trim_zeros(np.ma.count(array, axis=2).flatten())`. -/
 def wPartNodeCountOld {α} (b : List (List (List (Option α)))) : Option (List Nat) :=
   if (shape3 b).getD 1 0 == 1 then none else some (trimZeros (b.flatten.map countSome))
 
-/-- `_write_part_node_count` as proposed: every padding part (count 0) is left
+/-- `_write_part_node_count` (as coded): every padding part (count 0) is left
 out, and the variable is also written when there is an interior ring. -/
 def wPartNodeCount {α} (b : List (List (List (Option α)))) (hasRing : Bool) : Option (List Nat) :=
   if (shape3 b).getD 1 0 == 1 && !hasRing then none else some ((b.flatten.map countSome).filter (· != 0))
